@@ -6884,6 +6884,23 @@ impl RelationalEngine {
 
         let row_id = slab_row_id.as_u64() + 1;
 
+        // The new row belongs to this transaction until it ends: without a lock another
+        // transaction could update or delete it, and its changes would vanish (or its own
+        // rollback fail) when this transaction rolls the insert back.
+        if let Err(info) = self
+            .tx_manager
+            .lock_manager()
+            .try_lock(tx_id, &[(table.to_string(), row_id)])
+        {
+            let _ = self.slab().delete(table, slab_row_id);
+            return Err(RelationalError::LockConflict {
+                tx_id,
+                blocking_tx: info.blocking_tx,
+                table: info.table,
+                row_id: info.row_id,
+            });
+        }
+
         // Update row counter
         self.row_counters
             .entry(table.to_string())
